@@ -736,6 +736,8 @@ def run_sim(repo, paths, cfg, decisions=None, keep_trace=True):
     r.harness_error = repr(kernel.harness_error) if kernel.harness_error else None
     if world.shared_state_violation and r.unsupported is None:
         r.unsupported = world.shared_state_violation
+    if getattr(world, "unsupported_seen", None) and r.unsupported is None:
+        r.unsupported = world.unsupported_seen
     if kernel.harness_error is not None and isinstance(kernel.harness_error, SimUnsupported):
         r.unsupported = str(kernel.harness_error)
         r.harness_error = None
